@@ -157,6 +157,14 @@ class TwinHidSim:
             return False
         gw.readbuf.append(rep)
         self.loop.fire_reader(gw.fd)
+        # two descriptors can become readable within one pass of the loop (select reports both): a report of the OTHER
+        # interface that is due within half a millisecond is delivered in the same iteration
+        for k2, g2 in self.gws.items():
+            if k2 != k and g2.pending and g2.fd is not None and g2.fd in self.loop.fd_readers \
+                    and g2.pending[0][0] <= self.loop.time() + 0.0005:
+                _due2, rep2 = g2.pending.pop(0)
+                g2.readbuf.append(rep2)
+                self.loop.fire_reader(g2.fd)
         return True
 
     def deliver_next(self):
